@@ -7,7 +7,10 @@
    codes: 66 a statement text differs from display_stmt (or the number of statements differs);
           67 a scan-arm / shorthand text differs from display_scan_arm / display_shorthand;
           68 the variable text recorded in an SNode (`format!("{}", node)`) differs from display_variable;
-          69 two statements of the parsed file have the same location (`locs_unique` false). *)
+          69 two statements of the parsed file have the same location (`locs_unique` false);
+          71 an identifier printed in a statement header contains a character below U+0020 (the hypothesis of
+             display_stmt_single_line_partial fails on a parsed file).
+   Judged by the harness on the real text alone: 72 the real text of a statement contains a character below U+0020. *)
 From TSG Require Export Model.ErrChainObs Model.AstDisplay.
 
 Definition c20d_texts (print : list (N * bool)) (fl : file) : list str := map (display_stmt (dpenv_of print)) (file_stmts fl).
@@ -22,6 +25,7 @@ Definition c20d_verdict (print : list (N * bool)) (fl : file) (real : list str) 
   else if negb (list_eqb str_eqb (map (display_shorthand E) (f_shorthands fl)) shs) then 67
   else if negb (forallb (node_vtext_ok E) (file_stmts fl)) then 68
   else if negb (locs_unique fl) then 69
+  else if negb (forallb stmt_names_cleanb (file_stmts fl)) then 71
   else 0.
 
 Definition c20d_detail (print : list (N * bool)) (fl : file) :=
